@@ -89,6 +89,7 @@ def run(prog, chk):
     chk.rule(lookup_amplification, prog, chk)
     chk.rule(retry_amplification, prog, chk)
     chk.rule(retry_novelty, prog, chk)
+    chk.rule(indent_amplification, prog, chk)
     chk.rule(retry_baseline_after_attempt, prog, chk)
     from props import C17
     chk.rule(C17.scope_var_limit, prog, chk)  # unbounded growth of scope variables is memory exhaustion (abort)
@@ -506,6 +507,68 @@ def infinite_iterators(prog, chk, reach):
                     if o[0] == "call" and o[1] in inf and Callee(o[2]["fn"]).decl_path == "std::iter::IntoIterator::into_iter":
                         chk.bad("A4.endless-iterator", f"{b.short}:for-loop", b.where(h), f"{b.short}: a `for` loop runs directly over an endless iterator")
     chk.floor("A4.endless-iterator", n_src, 4, "call producing an endless iterator (attr_split_cycle / cycle)")
+
+
+def indent_amplification(prog, chk):
+    """Text the library generates for an element (label, tspans, line breaks between them) is indented like the element:
+    `" ".repeat(self.indent)`, several times per element.  The indent is read off the input - the blanks that end the
+    text in front of the element - so unless it is capped the output holds (elements with generated text) x (longest
+    run of blanks) bytes: N labelled elements on one line behind 100*N blanks are 125*N bytes of input and 100*N*N bytes
+    of output.  Work per element has to be bounded by something the element asks for, not by the length of the input"""
+    reps = []
+    for b in prog.bodies.values():
+        if b.unit != "svgdx-lib":
+            continue
+        for (x, t, c) in b.call_sites(lambda c: c.path.split("::")[-1] == "repeat" and "str" in c.path):
+            o = R.origin(b, t["args"][1], carriers={}) if len(t["args"]) > 1 else ("unknown",)
+            if o[0] == "field" and o[1][1] and str(o[1][1][-1]).startswith("."):
+                reps.append((b, x, t, str(o[1][1][-1])[1:]))
+    fields = sorted({f for (_b, _x, _t, f) in reps})
+    n = 0
+    done = set()
+    for f in fields:
+        for b in prog.bodies.values():
+            if b.unit != "svgdx-lib":
+                continue
+            srcs = set()
+            for x, i, st in b.all_stmts():
+                rv = st.get("rv") or {}
+                if rv.get("k") == "aggr" and f in (rv.get("fnames") or []) and "svgdx::events::" in str(rv.get("adt", "")):
+                    pl = op_place(rv["ops"][rv["fnames"].index(f)])
+                    if pl is not None and not pl[1]:
+                        srcs.add(pl[0])
+            for l in sorted(srcs):
+                # the variable the field is filled from: is it ever given a difference of lengths, and is it capped?
+                roots, work = {l}, [l]
+                while work:
+                    a = work.pop()
+                    for d in b.defs_of(a):
+                        if d[1] != "term" and d[2].get("k") == "use":
+                            q = op_place(d[2].get("op"))
+                            if q is not None and q[0] not in roots:
+                                roots.add(q[0])
+                                work.append(q[0])
+                from_len = False
+                capped = False
+                for a in roots:
+                    for d in b.defs_of(a):
+                        o = ("rv", d[2]) if d[1] != "term" else ("call", d[0], d[2])
+                        if o[0] == "rv" and d[2].get("k") == "use":
+                            o = R.origin(b, d[2]["op"], carriers={})
+                        if o[0] == "rv" and o[1].get("k") == "binop" and str(o[1].get("op", "")).startswith("Sub"):
+                            ends = [R.origin(b, o[1][sd], carriers={}) for sd in ("a", "b")]
+                            if all(e[0] == "call" and "fn" in e[2] and Callee(e[2]["fn"]).path.split("::")[-1] == "len" for e in ends):
+                                from_len = True
+                        if o[0] == "call" and "fn" in o[2] and Callee(o[2]["fn"]).path.split("::")[-1] in ("min", "clamp"):
+                            capped = True
+                if not from_len or (b.path, f) in done:
+                    continue
+                done.add((b.path, f))
+                n += 1
+                chk.touch(b)
+                chk.ob(capped, "A4.indent-amplification", f"{b.short}:{f}", b.where(), f"the `{f}` recorded for an element is capped", f"{b.short} records as `{f}` of every element the number of blanks that end the text in front of it, with no upper bound, and {reps[0][0].short} writes that many blanks {len([1 for r in reps if r[3] == f])} times over for an element with generated text: output and time grow with (labelled elements) x (length of a run of blanks in the input) - quadratic in the size of the document")
+    if reps and not n:
+        chk.undecided("A4.indent-amplification", "indent", reps[0][0].where(reps[0][1], reps[0][2].get("line")), "where the repeat count of generated indentation comes from is not read here")
 
 
 def lookup_amplification(prog, chk):
